@@ -155,6 +155,9 @@ type Machine struct {
 	elemOf       map[*Value]elemRef
 	timerFires   int
 	ignoreTimers bool
+	curInstr     ssa.Instruction
+	curFn        *ssa.Function
+	faultPos     string
 	pools        map[*Value][]pooled // sync.Pool contents of the current path
 	exitChecks   []exitCheck
 	obsNames     []string
@@ -396,6 +399,9 @@ func (m *Machine) checkSat(extra ...*Term) SatResult {
 // answer, the same query is handed as a standalone script to all configured solvers in
 // parallel (one-shot processes, full timeout) and the first definite answer is taken.
 func (m *Machine) solve(extra []*Term, want []string) (SatResult, map[string]string) {
+	if m.eng.budgetHit && m.inInit == 0 {
+		panic(pathAbort{"budget", "wall-clock budget exhausted"})
+	}
 	r, model := m.sol.CheckWith(extra, want)
 	if r != Unknown {
 		return r, model
